@@ -94,7 +94,7 @@ pub fn case_line(tree: &Tree, dir: FftDirection, seed: u64, basis_max: usize, ma
     let input = make_input(n, &mut rng, c.p, basis_max);
     let req = format!("fp;{};{};{};{};{};{}", c.p, c.n, c.omega, dname, tree.text(), vals(&input));
     let ans = match built {
-        Err(e) => format!("CTOR-PANIC {}", e),
+        Err(_) => "CTOR-PANIC".to_string(),
         Ok(fft) => {
             if fft.len() != n {
                 format!("LEN-MISMATCH {} vs {}", fft.len(), n)
